@@ -73,7 +73,7 @@ def eval_tree(tree, xs, want_all=True):
         A = IR.build(tree)
     except Exception as e:
         return [("build", oracle.exc_man(e), str(e))], R
-    if "SelfAdjoint" in TP.scalar_invalidated_annotations(A):
+    if "SelfAdjoint" in TP.scalar_invalidated_annotations(A) or TP.contaminated_by_scalar(tree):
         return "contaminated", R  # open finding F-C05-scalar (recorded under C05) makes the .T/.H short-cuts wrong
     if tuple(A.shape) != tuple(R.shape):
         fails.append(("shape", "shape", f"A.shape={A.shape} expected {R.shape}"))
